@@ -51,4 +51,10 @@ def fetch (s : State) : Except Err (Ev × State) :=
 
 def len (s : State) : Nat := s.zero.length + s.pend.length
 
+/-- timestamp of the event the next `fetch` would return -/
+def nextTime (s : State) : Option Nat :=
+  match s.zero with
+  | e :: _ => some e.time
+  | [] => (minEv s.pend).map (·.time)
+
 end FES
